@@ -62,6 +62,23 @@ def prove_one(args):
     if rep.feasible_returns == 0 and not c.raises:
         items.append(Item(id=f'{prop}/{c.key}/unreachable', kind='P', status='undecided', function=c.key,
                           note='no feasible path reaches a normal exit: contradictory precondition?', detail=''))
+    # vacuity guard (cover): some exit's path condition together with its postcondition must be satisfiable;
+    # `unsat` means the contract's assumptions contradict each other and every proof below would be vacuous
+    cover = [ob for ob in rep.obligations if ob.kind in ('post', 'raises')][:3]
+    if cover:
+        import z3 as _z3
+        verdict = 'unsat'
+        for ob in cover:
+            smt = solve.to_smt2(list(world.axioms) + list(ob.axioms), ob.pc, _z3.Not(ob.goal))  # asserts pc and goal
+            r, _why, _ms = solve._cli_check(['z3-new', '-smt2', '-T:5'], smt, 10)
+            if r != 'unsat':
+                verdict = r
+                break
+        finfo['cover'] = verdict
+        if verdict == 'unsat':
+            items.append(Item(id=f'{prop}/{c.key}/cover', kind='P', status='undecided', function=c.key,
+                              note='vacuity guard: no exit of the function is reachable together with its postcondition',
+                              detail='path conditions contradict the contract (contradictory requires / ensures of callees?)'))
     verdicts = solve.discharge(world, rep.obligations, timeout_ms=timeout, jobs=1)
     for ob in rep.obligations:
         v = verdicts[ob.oid]
